@@ -319,14 +319,13 @@ class DiffOperator(operator.Operator, abc.ABC):
         order2_partials = {
             (p1, p2): derive2(sm, (p1, p2)) for p1, p2 in self.parameters_order2
         }
-        order2_coeffs = {
-            Pair(v1, v2): {
-                Pair(p1, p2): c1 * c2
-                for p1, c1 in self.order1.get(v1, {}).items()
-                for p2, c2 in self.order1.get(v2, {}).items()
-            }
-            for v1, v2 in self.order2
-        }
+        order2_coeffs = {}
+        for v1, v2 in self.order2:
+            # sum the coefficients of (p1, p2) and (p2, p1): both carry the same 2nd derivative
+            coeffs = order2_coeffs.setdefault(Pair(v1, v2), {})
+            for p1, c1 in self.order1.get(v1, {}).items():
+                for p2, c2 in self.order1.get(v2, {}).items():
+                    coeffs[Pair(p1, p2)] = coeffs.get(Pair(p1, p2), 0) + c1 * c2
         order2_current = combine_partials(order2_coeffs, order2_partials)
 
         # cross derivatives
